@@ -358,6 +358,89 @@ fn check_overlong(thorough: bool, rep: &mut Report) -> u64 {
     n
 }
 
+/// The decrypted scoped PDU is a message layer too: an element that declares more octets than the ciphertext
+/// delivered must be rejected, whatever the cipher's private buffer still holds from earlier traffic.
+fn check_decrypt_extent(rep: &mut Report) -> u64 {
+    use crate::c01::{aes_cfb_encrypt, des_cbc_encrypt, KEY};
+    use gufo_snmp::snmp::get::SnmpGet;
+    use gufo_snmp::snmp::msg::v3::{ScopedPdu, UsmParameters};
+    use gufo_snmp::snmp::pdu::SnmpPdu;
+    use gufo_snmp::verif::{PrivKey, SnmpPriv};
+    let mut n = 0u64;
+    let engine = b"\x80\x00\x1f\x88\x04eng";
+    let salt = [9u8, 8, 7, 6, 5, 4, 3, 2];
+    for alg in [1u8, 2] {
+        for history in 0..3usize {
+            for vlen in 0..40usize {
+                for extra in 1..=16usize {
+                    // a response whose value (last element) declares `extra` octets more than are present
+                    let value: Vec<u8> = (0..vlen).map(|i| (i * 13 + 7) as u8).collect();
+                    let good = rb::scoped(engine, b"", &rb::pdu(0xa2, 77, 0, 0, &[rb::varbind(&rb::enc_oid(&[1, 3, 6, 1, 2, 1, 1, 5, 0]), &rb::enc_octets(&value))]));
+                    // re-declare every enclosing length and the value's own length `extra` longer, keep the bytes
+                    let nodes = rb::all_nodes(&good);
+                    let mut bad = good.clone();
+                    let mut okay = true;
+                    for nd in nodes.iter() {
+                        if nd.end() == good.len() {
+                            let l = nd.len + extra;
+                            if nd.hlen != 2 || l >= 0x80 {
+                                okay = false;
+                                break;
+                            }
+                            bad[nd.start + 1] = l as u8;
+                        }
+                    }
+                    if !okay {
+                        continue;
+                    }
+                    let mut k = match PrivKey::new(alg) {
+                        Ok(k) => k,
+                        Err(_) => continue,
+                    };
+                    if k.as_localized(&KEY).is_err() {
+                        continue;
+                    }
+                    // history: nothing / a long request encrypted before / a long request then a short one
+                    let big: Vec<gufo_snmp::ber::SnmpOid> = (0..10).filter_map(|i| gufo_snmp::ber::SnmpOid::try_from(format!("1.3.6.1.4.1.{}.255.254.253.252", 200 + i).as_str()).ok()).collect();
+                    if history >= 1 {
+                        let sp = ScopedPdu { engine_id: engine, pdu: SnmpPdu::GetRequest(SnmpGet { request_id: 0x7f7f7f7f, vars: big.clone() }) };
+                        let _ = guarded(|| k.encrypt(&sp, 1, 2).map(|x| x.0.len()));
+                    }
+                    if history == 2 {
+                        let sp = ScopedPdu { engine_id: engine, pdu: SnmpPdu::GetRequest(SnmpGet { request_id: 5, vars: vec![] }) };
+                        let _ = guarded(|| k.encrypt(&sp, 1, 2).map(|x| x.0.len()));
+                    }
+                    let ct = if alg == 1 {
+                        let iv: Vec<u8> = KEY[8..16].iter().zip(salt.iter()).map(|(a, b)| a ^ b).collect();
+                        des_cbc_encrypt(&KEY[..8], &iv, &bad)
+                    } else {
+                        let mut iv = vec![0, 0, 0, 1, 0, 0, 0, 2];
+                        iv.extend_from_slice(&salt);
+                        aes_cfb_encrypt(&KEY[..16], &iv, &bad)
+                    };
+                    // DES needs whole blocks (zero padding is part of the plaintext then): only judge when the declared
+                    // extent still runs past the padded plaintext
+                    if alg == 1 && bad.len() + extra <= ct.len() {
+                        continue;
+                    }
+                    let usm = UsmParameters { engine_id: engine, engine_boots: 1, engine_time: 2, user_name: b"u", auth_params: &[], privacy_params: &salt };
+                    n += 1;
+                    match guarded(|| k.decrypt(&ct, &usm).is_ok()) {
+                        Ok(false) => {}
+                        Ok(true) => rep.violation(
+                            &format!("decrypt-overlong-accepted/{}", if alg == 1 { "des" } else { "aes" }),
+                            format!("{}: scoped PDU of {} octets whose elements declare {} octets more than were received was accepted after history {} (read from the cipher's private buffer)", if alg == 1 { "DES" } else { "AES" }, bad.len(), extra, history),
+                            format!("{{\"kind\": \"decrypt\", \"alg\": {}, \"vlen\": {}, \"extra\": {}, \"history\": {}}}", alg, vlen, extra, history),
+                        ),
+                        Err(p) => rep.violation(&format!("decrypt-overlong/panic/{}", crate::panic_class(&p)), format!("panic: {}", p), "{\"kind\": \"decrypt\"}".to_string()),
+                    }
+                }
+            }
+        }
+    }
+    n
+}
+
 pub fn run(thorough: bool) -> Report {
     let els = elements();
     let sfx = suffixes(thorough);
@@ -376,8 +459,11 @@ pub fn run(thorough: bool) -> Report {
     });
     let r2 = par_shards(1, |_, rep, beat, label| {
         *label.lock().unwrap() = "over-long inner lengths".into();
-        let n = check_overlong(thorough, rep);
+        let mut n = check_overlong(thorough, rep);
         beat.fetch_add(1, Ordering::Relaxed);
+        let nd = check_decrypt_extent(rep);
+        rep.count("decrypt_extent_cases", nd);
+        n += nd;
         rep.count("evaluations", n);
         rep.count("overlong_cases", n);
         label.lock().unwrap().clear();
